@@ -187,6 +187,38 @@ func amplify(prefix []string, rng *rand.Rand, tries int) []string {
 		for _, l := range prefix {
 			g.do(l)
 		}
+		if g.im.Rebuilding() && !g.im.Aborted() {
+			// a rebuild is under way: queued punches are applied, the rebuild is completed, and the
+			// replicas are compared with each other (volume image, chains, every snapshot image)
+			for k := 0; k < 256 && g.applyOne(rng); k++ {
+			}
+			if !g.im.Swapped() {
+				g.do("rbreload")
+			}
+			if !g.im.Mapped() {
+				g.do("lunmap")
+				for k := 0; k < 256 && g.applyOne(rng); k++ {
+				}
+			}
+			if !g.im.Promoted() {
+				g.do("rbpromote")
+			}
+			g.do("cmp")
+			g.do("full")
+			g.do("rbend")
+			g.do("open p")
+			g.do("mode RW")
+			g.do("full")
+			for _, d := range g.chain() {
+				if d.uc && !d.rm {
+					g.do("snapimg " + d.name)
+				}
+			}
+		} else if g.im.Rebuilding() {
+			g.do("rbend")
+			g.do("open p")
+			g.do("mode RW")
+		}
 		if g.im.S != nil && g.im.S.Replica() != nil {
 			steps := 4 + rng.Intn(10)
 			for i := 0; i < steps; i++ {
